@@ -1110,7 +1110,7 @@ def run(args):
 
     nk = sum(1 for f in spec_fail if f.get("sig") == "to-macro-second-cpu-or-flag-statement-double-defined")
     if nk:
-        log("C16: %d to-macro runs hit the known CPU/flag-symbol finding" % nk)
+        log("C16: %d to-macro runs hit the known CPU/flag-symbol finding: %s" % (nk, ", ".join("%s [%s]" % (f.get("tag"), f.get("why", "")[-160:].replace("\n", " | ")) for f in spec_fail if f.get("sig") == "to-macro-second-cpu-or-flag-statement-double-defined")[:900]))
     dist["to_macro_known_finding_hits"] = nk
     nlog = 0
     for f in spec_fail:
